@@ -15,12 +15,12 @@ assignments / device states — induction over the lists, no bounds.
 | each name denotes exactly one register                      | `binding_injective`, `name_denotes_one_register`        |
 | no two names (ignoring case) denote the same register       | `binding_injective`, `names_resolve_injectively`        |
 | the binding is what the program says                        | `binding_complete`                                      |
-| a violating program is rejected, naming file and line       | `conflicting_definitions_rejected`, `violation_rejected_with_position`, `analyze_outcomes` (+ witness `index_too_long_escapes`) |
+| a violating program is rejected, naming file and line       | `conflicting_definitions_rejected`, `violation_rejected_with_position`, `analyze_outcomes` |
 | range merging                                               | `ranges_partition`                                      |
 | batch write ≡ one at a time                                 | `batch_set_eq_single`, `start_with_params_eq_single`    |
 | batch read ≡ one at a time, same values                     | `batch_get_eq_single`, `batch_get_eq_single_on_parsed_program` |
 | touches exactly the bound registers                         | `touches_exactly_bound_registers`                       |
-| parsing yields a result                                     | `parse_terminates` (acyclic includes — forced), `cyclic_include_never_terminates`, `parse_terminates_needs_acyclicity` |
+| parsing yields a result                                     | `parse_terminates` (unconditional, ≤ `length fs + 1` opens), `include_cycle_parsed_once` |
 -/
 namespace QmiModel.Adbasic
 
@@ -133,12 +133,13 @@ theorem conflicting_definitions_rejected (syms : List Sym) (b : Binding) (h : an
     · rw [he] at gx; exact hne (Option.some.inj (gx.symm.trans gy))
     · exact hne (this.2 he)
 
-/-- where and why a loop gave up: the error carries file, line and label of symbol `s`, and `s` either
-names an unknown array or clashes with a definition that precedes it -/
+/-- where and why a loop gave up: the error carries file, line and label of symbol `s`, and `s` names an
+unknown array, or has an index `int()` cannot convert, or clashes with a definition that precedes it -/
 def RejectedAt {τ : Type} (cls : Sym → Cls τ) (pre : List Sym) (s : Sym) (e : ParseErr) : Prop :=
   e.file = s.file ∧ e.line = s.line ∧ e.label = s.label ∧
   ((∃ a, cls s = .unknownArray a ∧ e.kind = .unknownArray ∧ e.extra = a) ∨
-   (∃ name t, cls s = .defn name t ∧ e.kind ≠ .unknownArray ∧
+   (cls s = .tooLong ∧ e.kind = .invalidIndex) ∨
+   (∃ name t, cls s = .defn name t ∧ e.kind ≠ .unknownArray ∧ e.kind ≠ .invalidIndex ∧
       ∃ nt ∈ defsOf cls pre, Conflicts nt.1 nt.2 name t))
 
 private theorem rejectedAt_of_loop {τ : Type} [DecidableEq τ] (cls : Sym → Cls τ) (syms : List Sym) (e : ParseErr)
@@ -146,16 +147,18 @@ private theorem rejectedAt_of_loop {τ : Type} [DecidableEq τ] (cls : Sym → C
     ∃ pre s post, syms = pre ++ s :: post ∧ RejectedAt cls pre s e := by
   obtain ⟨pre, s, post, st1, h1, h2, h3, h4, h5, h6⟩ := loopCls_error cls syms binv_empty h
   refine ⟨pre, s, post, h1, h3, h4, h5, ?_⟩
-  rcases h6 with h6 | ⟨name, t, n', t', hc, hk, hg, hcf⟩
+  rcases h6 with h6 | h6 | ⟨name, t, n', t', hc, hk, hk2, hg, hcf⟩
   · exact Or.inl h6
-  · refine Or.inr ⟨name, t, hc, hk, (n', t'), ?_, hcf⟩
+  · exact Or.inr (Or.inl h6)
+  · refine Or.inr (Or.inr ⟨name, t, hc, hk, hk2, (n', t'), ?_, hcf⟩)
     rcases (loopCls_ok cls pre binv_empty h2).2.2.2.1 n' t' hg with h7 | h7
     · simp [BState.empty, dictGet] at h7
     · exact h7
 
 /-- **violation_rejected_with_position.** Every parse error of the analysis names (file, line, label) a
 symbol `s` of the program, everything before `s` was accepted, and `s` is a genuine violation: it refers
-to an array nobody named, or it clashes (`Conflicts`) with a definition earlier in the same pass. -/
+to an array nobody named, its index cannot be converted (more than 4300 digits), or it clashes
+(`Conflicts`) with a definition earlier in the same pass. -/
 theorem violation_rejected_with_position (syms : List Sym) (e : ParseErr)
     (h : analyze syms = .error (.parse e)) :
     ∃ pre s post, syms = pre ++ s :: post ∧
@@ -198,24 +201,20 @@ example : (match analyze
     | .error (.parse e) => e.file == "i.inc".toList && e.line == 9 && e.kind == .dupRef
     | _ => false) = true := by decide +kernel
 
-/-- **analyze_outcomes.** Besides a binding and a parse error (`violation_rejected_with_position`) the
-analysis has exactly one more outcome: `ValueError` from `int()` on an index of more than 4300 digits.
-The full statement "the analysis returns a binding or raises ParseException" is therefore *false* of the
-faithful model — `index_too_long_escapes` is the witness, replayed on the real code by the harness
-(known finding `reject:escaped-ValueError:index-longer-than-4300-digits`). -/
+/-- **analyze_outcomes** (full strength since fix 53c483e). The analysis returns a binding or raises a
+ParseException — nothing else escapes; together with `violation_rejected_with_position` every rejection
+names file and line of a genuine violation. -/
 theorem analyze_outcomes (syms : List Sym) :
-    (∃ b, analyze syms = .ok b) ∨ (∃ e, analyze syms = .error (.parse e)) ∨ analyze syms = .error .valueError := by
+    (∃ b, analyze syms = .ok b) ∨ (∃ e, analyze syms = .error (.parse e)) := by
   cases h : analyze syms with
   | ok b => exact Or.inl ⟨b, rfl⟩
-  | error e =>
-    cases e with
-    | parse e => exact Or.inr (Or.inl ⟨e, rfl⟩)
-    | valueError => exact Or.inr (Or.inr rfl)
+  | error e => cases e with | parse e => exact Or.inr ⟨e, rfl⟩
 
-/-- negation witness: `#Define PAR_big Par_111…1` (4301 digits) is neither bound nor rejected with a position -/
-theorem index_too_long_escapes :
+/-- historical example (a constant, the input of the repaired finding): a 4301-digit index is now rejected
+with the position of its `#Define` -/
+example :
     (match analyze [⟨"m.bas".toList, 3, "PAR_big".toList, "Par_".toList ++ List.replicate 4301 '1'⟩] with
-      | .error .valueError => true
+      | .error (.parse e) => e.file == "m.bas".toList && e.line == 3 && e.kind == .invalidIndex
       | _ => false) = true := by decide +kernel
 
 /-! ## 2. `_find_sequential_ranges` -/
@@ -566,28 +565,20 @@ theorem batch_get_eq_single_on_parsed_program (syms : List Sym) (b : Binding) (h
 
 /-! ## 5. The include walk -/
 
-/-- **parse_terminates.**  `parse_adbasic_program` keeps a FIFO work-list and no visited set.  It
-terminates — with the same result for every larger `open()` budget — *provided* the include graph is
-acyclic on the files the walk can reach: there is a set `P` of paths containing the top file and closed
-under (resolved) includes, and a rank that strictly decreases along every include edge inside `P`.
-The proof forces this hypothesis; `cyclic_include_never_terminates` shows it cannot be dropped.
-The bound is `(B+1)^rank(top)` opens, `B` the largest number of `#Include` lines in one file. -/
-theorem parse_terminates (fs : Files) (incDir top : Str) (rank : Str → Nat) (P : Str → Prop)
-    (htop : P top)
-    (hacyc : ∀ f syms incs, P f → stepOf fs incDir f = some (syms, incs) → ∀ g ∈ incs, rank g < rank f ∧ P g) :
-    ∃ fuel, ∀ n, fuel ≤ n →
-      parseProgram n fs top incDir ≠ .outOfFuel ∧ parseProgram n fs top incDir = parseProgram fuel fs top incDir := by
-  refine ⟨(maxIncs fs + 1) ^ rank top, ?_⟩
-  have hbase : parseLoop fs incDir ((maxIncs fs + 1) ^ rank top) [top] [] ≠ .outOfFuel := by
-    apply parseLoop_terminates fs incDir rank (maxIncs fs) P
-    · intro f syms incs hP hs
-      exact ⟨stepOf_incs_le fs incDir f syms incs hs, hacyc f syms incs hP hs⟩
-    · intro f hf
-      simp only [List.mem_singleton] at hf
-      subst hf; exact htop
-    · simp [weight]
+/-- **parse_terminates** (full strength since fix 48b63c7: no acyclicity hypothesis).
+`parse_adbasic_program` keeps a FIFO work-list and the set of normalised paths already parsed.  For *every*
+finite file map, top file and include directory — include cycles, self-includes and diamonds included —
+the walk ends within `length fs + 1` calls of `open()` (every successful open consumes a not yet parsed
+entry of the map), with a symbol list or the `OSError` of a file that cannot be opened, and the result is
+the same for every larger budget. -/
+theorem parse_terminates (fs : Files) (incDir top : Str) :
+    ∀ n, fs.length < n →
+      parseProgram n fs top incDir ≠ .outOfFuel ∧
+      parseProgram n fs top incDir = parseProgram (fs.length + 1) fs top incDir := by
+  have hbase : parseLoop fs incDir (fs.length + 1) [top] [] [] ≠ .outOfFuel :=
+    parseLoop_terminates fs incDir _ _ _ _ (by have := unseen_le_length fs []; omega)
   intro n hn
-  have := parseLoop_mono fs incDir _ [top] [] hbase n hn
+  have := parseLoop_mono fs incDir _ [top] [] [] hbase n (by omega)
   unfold parseProgram
   rw [this]
   exact ⟨hbase, rfl⟩
@@ -597,85 +588,29 @@ private def exFiles : Files :=
    ("prog/inc/b.inc".toList, "#Define PAR_b FPar_2\r\n#include ..\\sub\\c.inc\r\n#Include ADwinGoldII.inc\r\n".toList),
    ("prog/sub/c.inc".toList, "#Define DATA_arr Data_5\n#Define PAR_c Data_arr[3]\n".toList)]
 
-private def exRank (f : Str) : Nat :=
-  if f = "prog/main.bas".toList then 2 else if f = "prog/inc/b.inc".toList then 1 else 0
-
-/-- the hypotheses of `parse_terminates` hold for a three-file program with a diamond (c.inc is reached
-twice), and the walk then returns all five definitions, c.inc's twice -/
+/-- a three-file program with a diamond (c.inc is reached twice, parsed once): all four definitions, once -/
 example :
-    (∀ f syms incs, f ∈ ["prog/main.bas".toList, "prog/inc/b.inc".toList, "prog/sub/c.inc".toList] →
-      stepOf exFiles "prog".toList f = some (syms, incs) →
-      ∀ g ∈ incs, exRank g < exRank f ∧ g ∈ ["prog/main.bas".toList, "prog/inc/b.inc".toList, "prog/sub/c.inc".toList]) ∧
-    (match parseProgram 9 exFiles "prog/main.bas".toList "prog".toList with
-      | .ok syms => syms.map (·.label) == ["PAR_a".toList, "PAR_b".toList, "DATA_arr".toList, "PAR_c".toList,
-                                            "DATA_arr".toList, "PAR_c".toList]
-      | _ => false) = true := by
-  constructor
-  · intro f syms incs hf hs g hg
-    have e1 : stepOf exFiles "prog".toList "prog/main.bas".toList
-        = some ([⟨"prog/main.bas".toList, 2, "PAR_a".toList, "Par_1".toList⟩],
-                ["prog/inc/b.inc".toList, "prog/sub/c.inc".toList]) := by decide +kernel
-    have e2 : stepOf exFiles "prog".toList "prog/inc/b.inc".toList
-        = some ([⟨"prog/inc/b.inc".toList, 1, "PAR_b".toList, "FPar_2".toList⟩], ["prog/sub/c.inc".toList]) := by
-      decide +kernel
-    have e3 : stepOf exFiles "prog".toList "prog/sub/c.inc".toList
-        = some ([⟨"prog/sub/c.inc".toList, 1, "DATA_arr".toList, "Data_5".toList⟩,
-                 ⟨"prog/sub/c.inc".toList, 2, "PAR_c".toList, "Data_arr[3]".toList⟩], []) := by decide +kernel
-    simp only [List.mem_cons, List.not_mem_nil, or_false] at hf
-    rcases hf with rfl | rfl | rfl
-    · rw [e1] at hs
-      simp only [Option.some.injEq, Prod.mk.injEq] at hs
-      rw [← hs.2] at hg
-      simp only [List.mem_cons, List.not_mem_nil, or_false] at hg
-      rcases hg with rfl | rfl <;> exact ⟨by decide +kernel, by decide +kernel⟩
-    · rw [e2] at hs
-      simp only [Option.some.injEq, Prod.mk.injEq] at hs
-      rw [← hs.2] at hg
-      simp only [List.mem_cons, List.not_mem_nil, or_false] at hg
-      subst hg
-      exact ⟨by decide +kernel, by decide +kernel⟩
-    · rw [e3] at hs
-      simp only [Option.some.injEq, Prod.mk.injEq] at hs
-      rw [← hs.2] at hg
-      simp at hg
-  · decide +kernel
+    (match parseProgram 4 exFiles "prog/main.bas".toList "prog".toList with
+      | .ok syms => syms.map (·.label) == ["PAR_a".toList, "PAR_b".toList, "DATA_arr".toList, "PAR_c".toList]
+      | _ => false) = true := by decide +kernel
 
 /-- the program of DESIGN §7(n): `a.bas` includes `.\inc\b.inc`, which includes `..\a.bas` -/
 def cycFiles : Files :=
   [("a.bas".toList, "#Define PAR_one Par_1\n#Include .\\inc\\b.inc\n".toList),
    ("inc/b.inc".toList, "#Define PAR_two Par_2\n#Include ..\\a.bas\n".toList)]
 
-/-- **cyclic_include_never_terminates** (negation witness for the unconditional statement
-"`parse_adbasic_program` returns a symbol list or raises" — FALSE of the faithful model):
-on the two-file include cycle *no* `open()` budget suffices. The harness replays the same two files on
-the real parser under a file-open watchdog (known finding `parse:never-terminates:include-cycle`). -/
-theorem cyclic_include_never_terminates :
-    ∀ n, parseProgram n cycFiles "a.bas".toList [] = .outOfFuel := by
-  have ea : stepOf cycFiles [] "a.bas".toList
-      = some ([⟨"a.bas".toList, 1, "PAR_one".toList, "Par_1".toList⟩], ["inc/b.inc".toList]) := by decide +kernel
-  have eb : stepOf cycFiles [] "inc/b.inc".toList
-      = some ([⟨"inc/b.inc".toList, 1, "PAR_two".toList, "Par_2".toList⟩], ["a.bas".toList]) := by decide +kernel
-  have both : ∀ n acc, parseLoop cycFiles [] n ["a.bas".toList] acc = .outOfFuel ∧
-                        parseLoop cycFiles [] n ["inc/b.inc".toList] acc = .outOfFuel := by
-    intro n
-    induction n with
-    | zero => intro acc; exact ⟨rfl, rfl⟩
-    | succ n ih =>
-      intro acc
-      constructor
-      · rw [parseLoop_succ_of_step _ _ _ _ _ _ ea]
-        exact (ih _).2
-      · rw [parseLoop_succ_of_step _ _ _ _ _ _ eb]
-        exact (ih _).1
-  intro n
-  exact (both n []).1
-
-/-- the unconditional termination statement is false: there is a finite file map and a top file for which
-every budget is exhausted -/
-theorem parse_terminates_needs_acyclicity :
-    ¬ (∀ (fs : Files) (top incDir : Str), ∃ fuel, parseProgram fuel fs top incDir ≠ .outOfFuel) := by
-  intro h
-  obtain ⟨fuel, hf⟩ := h cycFiles "a.bas".toList []
-  exact hf (cyclic_include_never_terminates fuel)
+/-- **include_cycle_parsed_once** (historical example about a constant: the input of the repaired finding
+`parse:never-terminates:include-cycle`).  The two-file include cycle is now parsed with two opens and yields
+each definition once; so does a file that includes itself. -/
+theorem include_cycle_parsed_once :
+    (match parseProgram 3 cycFiles "a.bas".toList [] with
+      | .ok syms => syms.map (fun s => (s.file, s.line, s.label)) ==
+          [("a.bas".toList, 1, "PAR_one".toList), ("inc/b.inc".toList, 1, "PAR_two".toList)]
+      | _ => false) = true ∧
+    (match parseProgram 2 [("prog/main.bas".toList, "#Include .\\main.bas ' itself\n#Define PAR_x Par_1\n".toList)]
+        "prog/main.bas".toList "prog".toList with
+      | .ok syms => syms.map (·.label) == ["PAR_x".toList]
+      | _ => false) = true := by
+  constructor <;> decide +kernel
 
 end QmiModel.Adbasic
